@@ -7,8 +7,13 @@
 -/
 namespace GV.Minify
 
-/-- utils.go:887-889 `needsSpace`: `[a-zA-Z0-9_$]` and the hint magic `'\b'`. -/
+/-- utils.go `needsSpace` (after the repair fixes/C16-needsspace-nonascii): `[a-zA-Z0-9_$]`, the hint magic `'\b'`
+    and every byte >= 0x80 (part of a multi-byte UTF-8 character, i.e. of an identifier). -/
 def needsSpace (c : Nat) : Bool :=
+  (97 ≤ c && c ≤ 122) || (65 ≤ c && c ≤ 90) || (48 ≤ c && c ≤ 57) || c == 95 || c == 36 || c == 8 || 128 ≤ c
+
+/-- REPAIRED DEFECT — `needsSpace` as it was before the repair (ASCII identifier characters only). -/
+def needsSpaceOld (c : Nat) : Bool :=
   (97 ≤ c && c ≤ 122) || (65 ≤ c && c ≤ 90) || (48 ≤ c && c ≤ 57) || c == 95 || c == 36 || c == 8
 
 /-- internal/sourcemapx/hint.go:47-63 `ReadHint` — only the returned `length` (= size+3) matters here;
